@@ -23,7 +23,17 @@
 //	n.Digest()                             canonical state: active chain hashes, sorted unspent index
 //	                                       of every transaction the factory ever produced, sorted
 //	                                       pool hashes
-//	Key(name) / Genesis(params)            harness-owned fixed keys; genesis of a regime
+//	Key(name) / n.Genesis() / NewParams(cfg) harness-owned fixed keys; genesis and parameters of a regime
+//	KnownTxs() / KnownTx(id) / KnownBlock(h) registry of everything the factory produced (reference models
+//	                                       resolve active-chain hashes through it)
+//	CopyBlock / CopyTx                     private deep copies through the wire encoding
+//	n.Connected / n.Disconnected / n.OnEvent chain events seen while the node was live
+//
+// Search support (pool.go, bfs.go): Serve/StartPool/Pool.Map keep N warm worker processes of the
+// check binary; System + BFSHandler + BFS + RunHistory are a level-synchronous breadth-first
+// search with a global digest memo (fresh System per transition, failing histories confirmed
+// twice, clean replays must reproduce the recorded digest); Budget(def) is the internal time cap
+// (VERIF_BUDGET_S overrides).
 //
 // # Regimes
 //
@@ -54,9 +64,18 @@
 // UTXOCache.CleanTxCache; ETBlockDisconnected → MaybeAcceptTransaction / RemoveTransaction), so
 // "the node's own post-block cleanup" has run when ProcessBlock returns.
 //
-// Measured on this image (16 shared cores, /dev/shm): fresh node ≈ 9–14 ms, Close ≈ 2–4 ms,
-// ProcessBlock of a coinbase-only block ≈ 1.3–2 ms, with 2 signed transfers ≈ 2–3 ms,
-// BuildBlock (uncached) ≈ 0.2 ms; see Cost().
+// # Cost (measured on this image, /dev/shm, while other builders kept the 16 cores at load 40-120)
+//
+// A fresh node is dominated by the six 4 MiB goleveldb memtables that blockchain.NewChainStore /
+// ffldb allocate and clear (72% of the CPU profile), i.e. by how fast this VM hands out memory:
+// NewNode+Close ≈ 5-12 ms once the process heap is warm and resident (GOMAXPROCS=1,
+// GODEBUG=madvdontneed=0 — what Pool sets), 40-70 ms when the heap is being re-faulted
+// (GOGC=off, large GOGC), 100-600 ms for the first ~10 nodes of a process (hence Pool instead
+// of one process per job). ProcessBlock: coinbase-only block 0.9-2 ms, block with two signed
+// transfers 2-3 ms; BuildBlock (uncached) 0.1-0.4 ms; Digest 0.02-0.7 ms. End to end a
+// transition (fresh node, 4-block prefix, <= 5 operations, oracles, close) costs 15-25 ms of CPU
+// in steady state; under the load above the 16 workers together sustained 50-70 transitions/s.
+// Cost(k) re-measures.
 package chainkit
 
 import (
